@@ -246,6 +246,20 @@ def run_program(spec, SG=None, entropy_log=None, fault_log=None):
                         if w is not None:
                             h.add("gw", w.grad.data)
                     repeat(n, s, body)
+                elif k == "bcast":
+                    # an operand broadcast along two or more axes (a scalar temperature, a (1,C,1) scale/shift), float32, values that do
+                    # not sum exactly: the reduction of its gradient over several axes must round the same way in every execution
+                    def body(h, s=s):
+                        x = sg.Tensor(np.array(s["x"], dtype=np.float32).reshape(s["xs"]), requires_grad=True)
+                        p_ = sg.Tensor(np.array(s["p"], dtype=np.float32).reshape(s["ps"]), requires_grad=True)
+                        q_ = sg.Tensor(np.array(s["q"], dtype=np.float32).reshape(s["ps"]), requires_grad=True)
+                        y = (x * p_ + q_) if s["form"] == "affine" else (x / p_ - q_) if s["form"] == "div" else (x * p_) * (x + q_)
+                        (y * y).sum().backward()
+                        h.add("fw", y.data)
+                        h.add("gp", p_.grad.data)
+                        h.add("gq", q_.grad.data)
+                        h.add("gx", x.grad.data)
+                    repeat(n, s, body)
                 elif k == "onehot":
                     # class NAMES as labels: the column order must not depend on string hashing
                     labels = s["labels"] if s.get("as") == "list" else np.array(s["labels"])
@@ -278,7 +292,7 @@ class ReproSim(Sim):
     PROBES = ["rand_family", "init_family", "layer_constructor", "dropout", "shuffled_split", "training_steps", "sumorder_float32", "generated_dag_program_float32", "gather_repeated_indices", "default_seed_on_scalar_leaf", "special_seed", "fresh_process_hashseed_0",
               "fresh_process_hashseed_1", "fresh_process_hashseed_random", "heap_displaced", "in_process_twice", "repetitions_without_reseed",
               "padded_conv_or_pool_float32", "batch_norm_running_statistics", "interrupted_execution_between_repetitions", "in_process_four_times_with_gc",
-              "one_hot_of_class_names", "random_tensor_with_explicit_float64"]
+              "one_hot_of_class_names", "random_tensor_with_explicit_float64", "operand_broadcast_along_several_axes"]
     RULE = ("one run = one generated program over the random-consuming APIs + training steps + float32 multi-contribution graphs, executed over the "
             "matrix (twice in-process, 3 fresh interpreters with different PYTHONHASHSEED / heap layout, r repetitions of the deterministic part); "
             "distinct = multiset of APIs used x matrix; non-trivial = the program consumed randomness and was executed in a fresh process")
@@ -301,7 +315,7 @@ class ReproSim(Sim):
                 return [rng.choice([260, 300, 512])] + [rng.choice([257, 300])] + [1] * (rank - 2) if rank >= 2 else [rng.choice([70000, 100000])]
             return [rng.randint(lo, hi) for _ in range(rank)]
         for _ in range(rng.randint(3, 9)):
-            k = rng.choice(["rand", "rand", "init", "layer", "dropout", "split", "train", "sumorder", "sumorder", "dag", "dag", "gather", "leafroot", "conv", "conv", "bn", "onehot"])
+            k = rng.choice(["rand", "rand", "init", "layer", "dropout", "split", "train", "sumorder", "sumorder", "dag", "dag", "gather", "leafroot", "conv", "conv", "bn", "onehot", "bcast", "bcast"])
             if k == "rand":
                 fn = rng.choice(["rand", "randn", "normal", "randint"])
                 s = {"k": "rand", "fn": fn, "shape": dims(1, 4, rng.randint(1, 3))}
@@ -351,6 +365,13 @@ class ReproSim(Sim):
                 if op.startswith("conv"):
                     s["ws"] = [rng.randint(1, 3), C, ks, ks] if two else [rng.randint(1, 3), C, ks]
                     s["w"] = [round(rng.uniform(-2, 2), 3) for _ in range(int(np.prod(s["ws"])))]
+            elif k == "bcast":
+                rank = rng.choice([2, 3, 3, 4])
+                xs = [rng.randint(3, 9) for _ in range(rank)]
+                ps = rng.choice([[1], [1] * rank, [1 if (i != 1) else xs[1] for i in range(rank)], [1 if i < rank - 1 else xs[-1] for i in range(rank)]])
+                nx, npar = int(np.prod(xs)), int(np.prod(ps))
+                s = {"k": "bcast", "xs": xs, "ps": ps, "form": rng.choice(["affine", "div", "prod"]), "reps": rng.randint(2, 3),
+                     "x": [round(rng.uniform(-3, 3), 4) for _ in range(nx)], "p": [round(rng.uniform(0.5, 2.5), 4) for _ in range(npar)], "q": [round(rng.uniform(-1, 1), 4) for _ in range(npar)]}
             elif k == "onehot":
                 names = rng.sample(["cat", "dog", "bird", "ant", "zebra", "Yak", "b", "a10", "a9", "cow", "emu", "fox"], rng.randint(2, 7))
                 s = {"k": "onehot", "labels": [rng.choice(names) for _ in range(rng.randint(2, 12))], "as": rng.choice(["array", "list"])}
@@ -409,7 +430,7 @@ class ReproSim(Sim):
             st.probes[{"rand": "rand_family", "init": "init_family", "layer": "layer_constructor", "dropout": "dropout", "split": "shuffled_split",
                        "train": "training_steps", "sumorder": "sumorder_float32", "dag": "generated_dag_program_float32", "gather": "gather_repeated_indices",
                        "leafroot": "default_seed_on_scalar_leaf", "conv": "padded_conv_or_pool_float32", "bn": "batch_norm_running_statistics",
-                       "onehot": "one_hot_of_class_names"}[s["k"]]] += 1
+                       "onehot": "one_hot_of_class_names", "bcast": "operand_broadcast_along_several_axes"}[s["k"]]] += 1
             if s.get("f64"):
                 st.probes["random_tensor_with_explicit_float64"] += 1
             if s.get("fault_between"):
